@@ -202,8 +202,26 @@ static mut REC_ATTRS: [RecAttr; 4] = [RecAttr { code: 0, has_data: false, dlen: 
 static mut REC_N: usize = 0;
 fn rec_with_attribute<T: Into<StunAttribute>>(b: StunMessageBuilder, attribute: T) -> StunMessageBuilder {
     let a: StunAttribute = attribute.into();
+    rec_one(&a);
+    std::mem::forget(a);
+    b
+}
+/// native replay of a counterexample (no stubs): the attributes are read from the real message
+fn rec_native<E>(r: &Result<(crate::StunMessage, usize), E>) {
+    if crate::verif_cfg::NATIVE_REPLAY {
+        if let Ok((m, _)) = r {
+            unsafe {
+                REC_N = 0;
+            }
+            for a in m.attributes() {
+                rec_one(a);
+            }
+        }
+    }
+}
+fn rec_one(a: &StunAttribute) {
     let mut r = RecAttr { code: a.attribute_type().as_u16(), has_data: false, dlen: 0, d0: 0, d3: 0 };
-    if let StunAttribute::Unknown(u) = &a {
+    if let StunAttribute::Unknown(u) = a {
         if let Some(d) = u.attribute_data() {
             r.has_data = true;
             r.dlen = d.len();
@@ -219,8 +237,6 @@ fn rec_with_attribute<T: Into<StunAttribute>>(b: StunMessageBuilder, attribute: 
         }
         REC_N += 1;
     }
-    std::mem::forget(a);
-    b
 }
 
 /// OPT bits: 1 = context present, 2 = not_ignore, 4 = with_unknown_data
@@ -245,6 +261,7 @@ fn c18_decode_opt<const OPT: u8, const BLOCK_MI: bool, const L: usize>() {
         REC_N = 0;
     }
     let r = dec.decode(&w.buf);
+    rec_native(&r);
     let adm = if OPT & 2 != 0 { [true; NA] } else { admitted(&w.types) };
     match &r {
         Ok((_m, size)) => {
@@ -333,6 +350,7 @@ fn c18c<const OPT: u8, const PATTERN: u8, const LL: usize>() {
         REC_N = 0;
     }
     let r = dec.decode(&buf);
+    rec_native(&r);
     assert!(r.is_ok(), "C03/C18: a well-formed message decodes under every option set");
     let recorded = unsafe { REC_N };
     let all = OPT & 2 != 0;
